@@ -365,6 +365,18 @@ def higher_cases():
             (f"d^{n}/dt^{n} cross(cross(f, a), b)", lambda n=n: V.VectorCross(V.VectorCross(f, a), b).diff(t, n), lambda D, A, n=n: cross3(cross3(D(0, n), A(0)), A(1)), False),
             (f"d/dt of d^{n-1}/dt^{n-1} cross(f, a)", lambda n=n: V.VectorCross(f, a).diff(t, n - 1).diff(t), lambda D, A, n=n: cross3(D(0, n), A(0)), False),
         ]
+    # mixed second derivatives of a function of two parameters, w(k, t): d/dk d/dt and d/dt d/dk; Dw(spec) is the partial of w given
+    # by spec = ((variable name, order), ...)
+    w, kk = E["fapps"][3], E["k"]
+    for first, second, tag in ((t, kk, "d/dk d/dt"), (kk, t, "d/dt d/dk")):
+        cases += [
+            (f"{tag} dot(w(k,t), a)", lambda first=first, second=second: V.VectorDot(w, a).diff(first).diff(second), lambda D, A: dot3(D(3, (("k", 1), ("t", 1))), A(0)), True),
+            (f"{tag} cross(w(k,t), a)", lambda first=first, second=second: V.VectorCross(w, a).diff(first).diff(second), lambda D, A: cross3(D(3, (("k", 1), ("t", 1))), A(0)), False),
+            (f"{tag} dot(w(k,t), f(t))", lambda first=first, second=second: V.VectorDot(w, f).diff(first).diff(second),
+             lambda D, A: dot3(D(3, (("k", 1), ("t", 1))), D(0, 0)) + dot3(D(3, (("k", 1),)), D(0, 1)), True),
+            (f"{tag} k*w(k,t)", lambda first=first, second=second: (kk * w).diff(first).diff(second),
+             lambda D, A: add3(D(3, (("t", 1),)), sc3(A("k"), D(3, (("k", 1), ("t", 1))))), False),
+        ]
     return cases
 
 
@@ -383,8 +395,13 @@ def check_higher(idx):
         out.update(verdict="candidate", why=f"raised {type(e).__name__}: {e}")
         return out
     enc = VecEnc()
-    D = lambda i, n: enc.vec(E["fapps"][i] if n == 0 else V.VectorDerivative(E["fapps"][i], (t, n)))
-    A = lambda i: enc.vec(E["vs"][i])
+    def D(i, n):
+        if n == 0:
+            return enc.vec(E["fapps"][i])
+        if isinstance(n, tuple):          # a (mixed) partial: ((variable name, order), ...)
+            return enc.vec(V.VectorDerivative(E["fapps"][i], *[(E[nm], o) for nm, o in n]))
+        return enc.vec(V.VectorDerivative(E["fapps"][i], (t, n)))
+    A = lambda i: enc.tr(E[i]) if isinstance(i, str) else enc.vec(E["vs"][i])
     try:
         want = oracle(D, A)
         got, want = ([enc.tr(res)], [want]) if scalar else (list(enc.vec(res)), list(want))
@@ -430,10 +447,16 @@ fa = {{}}
 for f in E["fs"]:
     fa[("vf", str(f.name))] = rnd3(); fa[("vd", str(f.name))] = rnd3()
     for n in (1, 2, 3, 4): fa[("vd", str(f.name), n)] = rnd3()
-nv = NumVec(va, {{"t": sp.Rational(1, 3)}}, fa)
 names = [str(f.name) for f in E["fs"]]
-D = lambda i, n: tuple(fa[("vf", names[i])] if n == 0 else fa[("vd", names[i], n)])
-A = lambda i: tuple(va[id(E["vs"][i])])
+for spec in ((("k", 1),), (("t", 1),), (("k", 1), ("t", 1)), (("k", 2),), (("t", 2),)):
+    fa[("vd", names[3], spec)] = rnd3()
+sa = {{"t": sp.Rational(1, 3), "k": sp.Rational(5, 3)}}
+nv = NumVec(va, sa, fa)
+def D(i, n):
+    if n == 0: return tuple(fa[("vf", names[i])])
+    if isinstance(n, tuple): return tuple(fa[("vd", names[i], tuple(sorted(n)))])
+    return tuple(fa[("vd", names[i], (("t", n),))]) if ("vd", names[i], (("t", n),)) in fa else tuple(fa[("vd", names[i], n)])
+A = lambda i: sa[i] if isinstance(i, str) else tuple(va[id(E["vs"][i])])
 want = oracle(D, A)
 got, want = ([nv.scal(res)], [want]) if scalar else (list(nv.vec(res)), list(want))
 print(label); print("library result:", res); print("value of result:", got, " Leibniz:", want)
